@@ -32,6 +32,8 @@
 #include <veriblock/pop/mock_miner.hpp>
 #undef private
 #include <veriblock/pop/pop_stateless_validator.hpp>
+#include <veriblock/pop/crypto/secp256k1.hpp>
+#include <veriblock/pop/strutil.hpp>
 #include <veriblock/pop/stateless_validation.hpp>
 
 #include "world.hpp"
@@ -78,6 +80,8 @@ static std::string kindOf(const std::string& path) {
   if (has(path, "BTC-bad-prev-block")) return "btcprev";
   if (has(path, "VBK-bad-prev-block")) return "vbkprev";
   if (has(path, "VBK-bad-chain") || has(path, "VBK-invalid-containing-block")) return "vtbchain";
+  if (has(path, "btc-time-too-old") || has(path, "btc-time-too-new")) return "btctime";
+  if (has(path, "vbk-time-too-old") || has(path, "vbk-time-too-new")) return "vbktime";
   if (has(path, "contextually-check-block")) return "ctxhdr";
   return "other:" + path;
 }
@@ -96,10 +100,59 @@ struct RulesSession : public vw::Session {
   void fail(const std::string& what) { vh::oracle_fail(cur, what); }
 
   // ---------------------------------------------------------------- helpers on the registry
+  std::map<std::string, std::string> xpar;  // parent of VBK headers that the miner's own tree refused
   std::string vparent(const std::string& v) {
+    auto x = xpar.find(v);
+    if (x != xpar.end()) return x->second;
+    if (!reg->vbk.count(v)) return "";
     auto* i = reg->vidx(v);
     if (i == nullptr || i->pprev == nullptr) return "";
     return reg->nameOf(i->pprev->getHash());
+  }
+  // VBK minimum timestamp for a child of `par`, written from the rule: the lower median of the timestamps of the
+  // (up to) 20 blocks ending at the parent
+  long vbkMinTimestamp(const std::string& par) {
+    std::vector<long> ts;
+    std::string c = par;
+    while (!c.empty() && reg->vbk.count(c) && ts.size() < 20) {
+      ts.push_back((long)reg->vbk.at(c).getTimestamp());
+      c = vparent(c);
+    }
+    if (ts.empty()) return 0;
+    std::sort(ts.begin(), ts.end());
+    return ts[(ts.size() - 1) / 2];
+  }
+  std::string bparentOf(const std::string& b) {
+    if (!reg->btc.count(b)) return "";
+    const auto& h = reg->btc.at(b);
+    if (h.getPreviousBlock() == uint256()) return "";
+    auto n = reg->nameOf(h.getPreviousBlock());
+    return reg->btc.count(n) ? n : "";
+  }
+  // BTC median time past (of up to 11 blocks ending at the parent), written from the rule
+  std::string btcTimeWrong(const std::string& b) {
+    std::string par = bparentOf(b);
+    if (par.empty()) return "";
+    std::vector<long> ts;
+    std::string c = par;
+    while (!c.empty() && ts.size() < 11) { ts.push_back((long)reg->btc.at(c).getTimestamp()); c = bparentOf(c); }
+    std::sort(ts.begin(), ts.end());
+    long m = ts[ts.size() / 2], t = (long)reg->btc.at(b).getTimestamp();
+    if (t < m) return "timestamp " + std::to_string(t) + " below the median time past " + std::to_string(m);
+    long lim = (long)reg->now + (long)params->btc.maxFutureBlockTime();
+    if (t > lim) return "timestamp " + std::to_string(t) + " too far in the future";
+    return "";
+  }
+  // "" if the header v may be added on top of its parent (time rules), else what is wrong
+  std::string vbkTimeWrong(const std::string& v) {
+    std::string par = vparent(v);
+    if (par.empty() || !reg->vbk.count(v)) return "";
+    long t = (long)reg->vbk.at(v).getTimestamp();
+    long m = vbkMinTimestamp(par);
+    if (t < m) return "timestamp " + std::to_string(t) + " below the minimum " + std::to_string(m);
+    long lim = (long)reg->now + (long)params->vbk.maxFutureBlockTime();
+    if (t > lim) return "timestamp " + std::to_string(t) + " too far in the future (limit now " + std::to_string(lim) + ")";
+    return "";
   }
   int vheight(const std::string& v) { return reg->vbk.at(v).getHeight(); }
   bool vIsAncestor(const std::string& anc, const std::string& of) {
@@ -160,6 +213,8 @@ struct RulesSession : public vw::Session {
         if (!reg->vbk.count(v)) { bad(id, "unregistered VBK context block " + v); continue; }
         if (!vknown.count(v)) {
           if (!vknown.count(vparent(v))) bad(id, "VBK context block " + v + " does not connect (parent " + vparent(v) + " unknown)");
+          auto tw = vbkTimeWrong(v);
+          if (!tw.empty()) bad(id, "VBK context block " + v + " violates the contextual header rules: " + tw);
           vknown.insert(v);
         }
         if (tree.vbk().getBlockIndex(vb.getHash()) == nullptr) bad(id, "VBK context block " + v + " not in the VBK tree");
@@ -202,6 +257,8 @@ struct RulesSession : public vw::Session {
           std::string bn = reg->nameOf(b.getHash());
           std::string bp = b.getPreviousBlock() != uint256() ? reg->nameOf(b.getPreviousBlock()) : bn;
           if (!brefs.count(bp) && bp != bn) bad(id, "BTC block " + bn + " of a VTB does not connect (" + bp + ")");
+          auto bw = btcTimeWrong(bn);
+          if (!bw.empty()) bad(id, "BTC block " + bn + " of a VTB violates the contextual header rules: " + bw);
           brefs[bn].insert(cont);
         }
       }
@@ -236,6 +293,8 @@ struct RulesSession : public vw::Session {
         std::string bop = reg->nameOf(a.blockOfProof.getHash());
         if (!vknown.count(bop)) {
           if (!reg->vbk.count(bop) || !vknown.count(vparent(bop))) bad(id, "ATV block of proof " + bop + " does not connect to the chain's VBK blocks");
+          auto tw = vbkTimeWrong(bop);
+          if (!tw.empty()) bad(id, "ATV block of proof " + bop + " violates the contextual header rules: " + tw);
           vknown.insert(bop);
         }
         if (tree.vbk().getBlockIndex(a.blockOfProof.getHash()) == nullptr) bad(id, "ATV block of proof " + bop + " not in the VBK tree");
@@ -315,6 +374,143 @@ struct RulesSession : public vw::Session {
     auto aid = a.getId();
     R.names["id:" + vh::hex(aid.data(), aid.size())] = t[1];
     return R.regVbk(blk->getHeader());
+  }
+
+  // vts <vparent> <timestamp>: a VBK header with a CHOSEN timestamp on top of a registry block (nonce re-mined). The
+  // miner's own tree gets it when it accepts it; a header it refuses is still registered (body material for a
+  // contextually invalid ALT block) -> new id
+  std::string vAncestorAt(const std::string& v, int h) {
+    std::string c = v;
+    while (!c.empty() && reg->vbk.count(c) && reg->vbk.at(c).getHeight() > h) c = vparent(c);
+    return (!c.empty() && reg->vbk.count(c) && reg->vbk.at(c).getHeight() == h) ? c : "";
+  }
+  std::string vts(const std::vector<std::string>& t) {
+    if (t.size() < 3) return "SKIP args";
+    auto& R = *reg;
+    if (!R.vbk.count(t[1])) return "SKIP";
+    // the header is assembled by hand from the parent's header (as Miner::getBlockTemplate does), so that it does not
+    // depend on what the miner's own tree thinks of the parent
+    const VbkBlock& ph = R.vbk.at(t[1]);
+    R.tick();
+    VbkBlock block;
+    block.setVersion(ph.getVersion());
+    block.setPreviousBlock(ph.getHash().template trimLE<VBK_PREVIOUS_BLOCK_HASH_SIZE>());
+    uint128 mr;
+    for (auto& x : mr) x = (uint8_t)(rand() & 0xff);
+    block.setMerkleRoot(mr);
+    int ph_h = ph.getHeight();
+    block.setHeight(ph_h + 1);
+    int ki = (int)R.p.vbk.getKeystoneInterval();
+    int diff = ph_h % ki;
+    if (diff == 0) diff += ki;
+    if (diff <= ph_h) {
+      auto k = vAncestorAt(t[1], ph_h - diff);
+      if (k.empty()) return "SKIP keystone";
+      block.setPreviousKeystone(R.vbk.at(k).getHash().template trimLE<VBK_PREVIOUS_KEYSTONE_HASH_SIZE>());
+    }
+    diff += ki;
+    if (diff <= ph_h) {
+      auto k = vAncestorAt(t[1], ph_h - diff);
+      if (k.empty()) return "SKIP keystone";
+      block.setSecondPreviousKeystone(R.vbk.at(k).getHash().template trimLE<VBK_PREVIOUS_KEYSTONE_HASH_SIZE>());
+    }
+    block.setTimestamp((uint32_t)std::stoul(t[2]));
+    block.setDifficulty(ph.getDifficulty());
+    block.setNonce(0);
+    R.miner.vbk_miner_.createBlock(block);
+    if ((uint32_t)block.getTimestamp() != (uint32_t)std::stoul(t[2])) return "SKIP nonce-exhausted";
+    ValidationState st;
+    std::string id = R.regVbk(block);
+    xpar[id] = t[1];
+    if (R.miner.vbk_tree_.getBlockIndex(ph.getHash()) != nullptr && R.miner.vbk_tree_.acceptBlockHeader(block, st)) {
+      auto* bi = R.miner.vbk_tree_.getBlockIndex(block.getHash());
+      bi->addRef(0);
+    }
+    return id;
+  }
+  // bts <bparent> <timestamp>: BTC header with a chosen timestamp (must be admissible: it enters the miner's tree)
+  std::string bts(const std::vector<std::string>& t) {
+    if (t.size() < 3) return "SKIP args";
+    auto& R = *reg;
+    if (!R.btc.count(t[1])) return "SKIP";
+    R.tick();
+    BtcBlock bb = R.miner.btc_miner_.createNextBlock(*R.bidx(t[1]));
+    bb.setTimestamp((uint32_t)std::stoul(t[2]));
+    bb.setNonce(0);
+    R.miner.btc_miner_.createBlock(bb);
+    ValidationState st;
+    if (!R.miner.btc_tree_.acceptBlockHeader(bb, st)) return "SKIP miner-rejected " + st.GetPath();
+    R.miner.btc_tree_.getBlockIndex(bb.getHash())->addRef(0);
+    return R.regBtc(bb);
+  }
+  std::string btsof(const std::string& b) {
+    if (!reg->btc.count(b)) return "SKIP";
+    return std::to_string(reg->btc.at(b).getTimestamp());
+  }
+  // xvtbts <w> <endorsed v> <vparent> <bparent> <lastKnownBtc> <timestamp>: a VTB whose BTC block of proof carries a
+  // chosen timestamp (possibly inadmissible: then the miner's trees do not get it) -> "<vbk id> <btc id>"
+  std::string xvtbts(const std::vector<std::string>& t) {
+    if (t.size() < 7) return "SKIP args";
+    auto& R = *reg;
+    if (!R.vbk.count(t[2]) || !R.vbk.count(t[3]) || !R.btc.count(t[4]) || !R.btc.count(t[5]) || R.vtb.count(t[1])) return "SKIP";
+    const auto& eb = R.vbk.at(t[2]);
+    auto tx = R.miner.createBtcTxEndorsingVbkBlock(eb);
+    std::vector<BtcTx> btxs{tx};
+    BtcMerkleTree mt(hashAll(btxs));
+    auto* pb = R.bidx(t[4]);
+    if (pb == nullptr) return "SKIP";
+    R.tick();
+    BtcBlock bb = R.miner.btc_miner_.createNextBlock(*pb, mt.getMerkleRoot());
+    bb.setTimestamp((uint32_t)std::stoul(t[6]));
+    bb.setNonce(0);
+    R.miner.btc_miner_.createBlock(bb);
+    ValidationState st;
+    if (R.miner.btc_tree_.acceptBlockHeader(bb, st)) {
+      R.miner.btc_tree_.getBlockIndex(bb.getHash())->addRef(0);
+      R.miner.btc_merkle_trees_.insert({bb.getHash(), mt});
+    }
+    static const auto priv = ParseHex(
+        "303e020100301006072a8648ce3d020106052b8104000a0427302502010104203abf83fa47"
+        "0423d4788a760ef6b7aae1dacf98784b0646057a0adca24e522acb");
+    static const auto pub = ParseHex(
+        "3056301006072a8648ce3d020106052b8104000a034200042fca63a20cb5208c2a55ff5099"
+        "ca1966b7f52e687600784d1de062c1dd9c8a5fe55b2ba5d906c703d37cbd02ecd9c97a8061"
+        "10fa05d9014a102a0513dd354ec5");
+    VbkPopTx ptx;
+    ptx.networkOrType.networkType = R.p.vbk.getTransactionMagicByte();
+    ptx.networkOrType.typeId = (uint8_t)TxType::VBK_POP_TX;
+    ptx.address = Address::fromPublicKey(pub);
+    ptx.publishedBlock = eb;
+    ptx.blockOfProof = bb;
+    ptx.publicKey = pub;
+    ptx.bitcoinTransaction = tx;
+    ptx.merklePath = mt.getMerklePath(tx.getHash());
+    {
+      auto last = R.btc.at(t[5]).getHash();
+      std::vector<BtcBlock> ctx;
+      for (auto* w = pb; w != nullptr && w->getHash() != last; w = w->pprev) ctx.push_back(w->getHeader());
+      std::reverse(ctx.begin(), ctx.end());
+      ptx.blockOfProofContext = ctx;
+    }
+    auto ptxHash = ptx.getHash();
+    ptx.signature = secp256k1::sign(ptxHash, secp256k1::privateKeyFromVbk(priv));
+    std::vector<VbkPopTx> txs{ptx};
+    VbkMerkleTree merkleTree({}, hashAll(txs));
+    const auto& merkleRoot = merkleTree.getMerkleRoot().template trim<VBK_MERKLE_ROOT_HASH_SIZE>();
+    VbkBlock block = R.miner.vbk_miner_.createNextBlock(*R.vidx(t[3]), merkleRoot);
+    if (!R.miner.vbk_tree_.acceptBlockHeader(block, st)) return "SKIP header " + st.GetPath();
+    R.miner.vbk_tree_.getBlockIndex(block.getHash())->addRef(0);
+    R.miner.vbk_merkle_trees_.insert({block.getHash(), merkleTree});
+    auto v = R.miner.createVTB(block, ptx);
+    R.vtb[t[1]] = v;
+    auto wid = v.getId();
+    R.names["id:" + vh::hex(wid.data(), wid.size())] = t[1];
+    return R.regVbk(block) + " " + R.regBtc(bb);
+  }
+
+  std::string vtsof(const std::string& v) {
+    if (!reg->vbk.count(v)) return "SKIP";
+    return std::to_string(reg->vbk.at(v).getTimestamp());
   }
 
   // atvn <vparent> <t:endorsed:payouthex>...: several honest ATVs (different endorsers = different payout infos, equal
@@ -561,6 +757,13 @@ struct RulesSession : public vw::Session {
     if (c == "xatv") return xatv(t);
     if (c == "xvtb") return xvtb(t);
     if (c == "atvn") return atvn(t);
+    if (c == "vts") return vts(t);
+    if (c == "bts") return bts(t);
+    if (c == "xvtbts") return xvtbts(t);
+    if (c == "btsof" && t.size() > 1) return btsof(t[1]);
+    if (c == "vtsof" && t.size() > 1) return vtsof(t[1]);
+    if (c == "vtw" && t.size() > 1) { auto r = vbkTimeWrong(t[1]); return r.empty() ? "fine" : r; }
+    if (c == "btw" && t.size() > 1) { auto r = btcTimeWrong(t[1]); return r.empty() ? "fine" : r; }
     if (c == "vtb2") return vtb2(t);
     if (c == "atvinfo" && t.size() > 1) return atvinfo(t[1]);
     if (c == "vtbinfo" && t.size() > 1) return vtbinfo(t[1]);
@@ -593,7 +796,7 @@ int main() {
     try {
       if (a[0] == "decl") r = "ok";
       else {
-        if (a[0] == "begin") s.failKind.clear();
+        if (a[0] == "begin") { s.failKind.clear(); s.xpar.clear(); }
         if (a[0] == "on" && a.size() > 1) s.curInst = a[1];
         // `set` = `verdict` (same call, the failing block and kind are remembered)
         if (a[0] == "on" && a.size() > 3 && a[2] == "set") a[2] = "verdict";
